@@ -692,6 +692,13 @@ func main() {
 		fragStatus[k] = v
 	}
 	// end trans5
+	// trans4: bstree/bstree.go -> Gen/Bst.lean (frag_bst.go)
+	bstLean, bstStatus := translateBst()
+	writeIfChanged(filepath.Join(outDir, "Bst.lean"), bstLean)
+	for k, v := range bstStatus {
+		fragStatus[k] = v
+	}
+	// end trans4
 	if len(os.Args) > 3 {
 		b, _ := json.MarshalIndent(map[string]any{"lockTable": tab, "effects": effs, "consts": cs, "regeneratedFunctions": fragStatus}, "", " ")
 		writeIfChanged(os.Args[3], string(b)+"\n")
